@@ -104,9 +104,12 @@ def cmd_check(a):
     space = check.space_size(tier) if hasattr(check, "space_size") else None
     exhaustive = not st.caps and not errors
     if space is not None and space != st.evaluations + st.filtered:
-        errors.append((-1, "enumerated {} + filtered {} != independently computed space size {}".format(
-            st.evaluations, st.filtered, space), ""))
         exhaustive = False
+        if not st.caps and not new:
+            errors.append((-1, "enumerated {} + filtered {} != independently computed space size {}".format(
+                st.evaluations, st.filtered, space), ""))
+        else:
+            lines.append("  # note: {} of {} scenarios enumerated (units stopped early: {})".format(st.evaluations + st.filtered, space, len(st.caps)))
     extra = dict(bounds=check.bounds(tier), exhaustive=exhaustive,
                  distinct_violation_fingerprints=len(st.violations))
     if space is not None:
